@@ -14,4 +14,5 @@ def run(chk):
     from . import c05, writertab
     c05.r05_adjacent(chk, rule="R01-adjacent")
     writertab.compare(chk, "R01-writer", floor=48)
+    writertab.compare_ifdata(chk, "R01-ifdata-writer", floor=22)
     chk.assumptions += ["not decided: equality of the reloaded model and byte identity of the text for all inputs (runtime values)"]
